@@ -24,6 +24,8 @@ def run(project, rep):
     rep.run(A.a_r4_ofx, schema, rep)
     rep.run(A.a_r5_recomputed_and_picklable, schema, rep)
     rep.run(A.a_r9_default_copy_protocol, schema, rep)
+    rep.run(A.a_r6b_classes_defined_where_they_live, schema, rep)
+    rep.run(A.a_r3c_statement_shortcut_of_every_statement_wrapper, schema, rep)
     from .. import rules_schema as S
     rep.rule("A-R7", "flat attribute access consults the class's OWN table of sub-aggregates (S-R10: no class-level memo read through inheritance)")
     rep.run(S.s_r10_per_class_tables, schema, rep)
